@@ -4,6 +4,7 @@ import (
 	"encoding/json"
 	"fmt"
 	"math"
+	"regexp"
 	"strconv"
 	"strings"
 
@@ -169,7 +170,7 @@ func genC03(tier, out string, sum *Summary) {
 			sum.direct("panic", expr, doc, "Search panicked: "+o.Msg)
 		}
 		distinct[stream+"|"+o.Kind+"|"+strings.Join(o.Cats, ",")+"|"+fmt.Sprintf("%T", o.Value)] = true
-		if modelled(doc) && len(expr) < 400 && !(hasEnumText(expr) == "true" && strings.ContainsAny(expr, "[<>=!")) {
+		if modelled(doc) && len(expr) < 400 && !(hasEnumText(expr) == "true" && strings.ContainsAny(expr, "[<>=!")) && !heavyForModel(expr, doc) {
 			sh.Add(fmt.Sprintf("BC %d %s %s %v %s", id, hx(expr), coqValue(doc), hasEnumText(expr), coqObs(o)))
 			sid := strconv.Itoa(id)
 			sum.Index[sid] = map[string]any{"expr": expr, "doc": fmt.Sprintf("%#v", doc), "observed": obsJSON(o)}
@@ -232,6 +233,70 @@ func genC03(tier, out string, sum *Summary) {
 			run(pick([]string{"a == b", "a != b", "a == a", "contains([a], b)", "[a][?@ == $.b]", "{p: a} == {p: b}", "[a, b] == [b, a]", "sort_by([{k: a}], &k)", "max_by([{k: a}, {k: b}], &k)", "a < b", "merge({x: a}, {x: b})", "not_null(a, b)", "[a, b][?@]", "zip([a], [b])", "group_by([{k: a}], &k)", "to_array(a) == to_array(b)"}), map[string]any{"a": z, "b": sameTypeAs(z)}, "same-type-pairs")
 		}
 	}
+	// every built-in x every notable leaf x the shapes it can arrive in: systematic, not sampled
+	// (only the absence of panics is decided here; one call in nine is also handed to the model)
+	quiet := func(expr string, doc any, stream string) {
+		id++
+		o := search(expr, doc)
+		sum.count(stream + "/" + o.Kind)
+		if o.Kind == "panic" {
+			sum.direct("panic", expr, doc, "Search panicked: "+o.Msg)
+		}
+	}
+	leaves := specialLeaves()
+	unary := []string{"abs(@)", "avg(@)", "ceil(@)", "floor(@)", "from_items(@)", "items(@)", "keys(@)", "length(@)", "lower(@)", "max(@)", "min(@)", "reverse(@)", "sort(@)", "sum(@)", "to_array(@)", "to_number(@)", "to_string(@)", "trim(@)", "type(@)", "upper(@)", "values(@)",
+		"sort_by(@, &@)", "max_by(@, &@)", "min_by(@, &@)", "group_by(@, &@)", "map(&@, @)", "sort_by(@, &a)", "max_by(@, &a)", "group_by(@, &a)", "zip(@, @)", "merge(@, @)", "not_null(@)", "join('', @)", "join(@, @)", "contains(@, @)", "contains(@, `1`)", "starts_with(@, @)", "find_first(@, @)", "find_first('a', 'a', @)", "find_first('a', 'a', `0`, @)", "find_last('ab', 'b', @, @)",
+		"pad_left(@, `2`)", "pad_right('a', `2`, @)", "split(@, @)", "split('a', '', @)", "replace(@, @, @)", "replace('a', 'a', 'b', @)", "trim(@, @)", "@[0]", "@[1:]", "@[::-1]", "@[::2]", "@[*]", "@[]", "@.*", "@[?@]", "@[?@ == @]", "@ == @", "@ != `1`", "@ < @", "@ <= `1`", "@ + @", "@ - `1`", "@ * @", "@ / @", "@ // @", "@ % @", "- @", "+ @", "!@", "@ && @", "@ || @", "[@, @]", "{a: @}", "@.a", "@ | @", "let $v = @ in $v == $v"}
+	k := 0
+	for _, f := range unary {
+		for _, lf := range leaves {
+			for shape := 0; shape < 7; shape++ {
+				var doc any
+				switch shape {
+				case 0:
+					doc = lf
+				case 1:
+					doc = []any{lf}
+				case 2:
+					doc = []any{json.Number("1"), lf}
+				case 3:
+					doc = []any{lf, lf, "s"}
+				case 4:
+					doc = map[string]any{"a": lf}
+				case 5:
+					doc = []any{[]any{lf}, []any{lf, lf}}
+				case 6:
+					doc = []any{map[string]any{"a": lf}, map[string]any{"a": lf}}
+				}
+				k++
+				if tier != "thorough" && k%3 != 0 {
+					continue
+				}
+				if k%9 == 0 {
+					run(f, doc, "builtin-x-leaf-x-shape")
+				} else {
+					quiet(f, doc, "builtin-x-leaf-x-shape")
+				}
+			}
+		}
+	}
+	// every string of up to four symbols over the delimiters, the escape character and a one- and a
+	// two-byte letter: unterminated and oddly escaped literals of every kind
+	alphabet := []string{"`", "'", "\"", "\\", "a", "\u00e9", "[", "]", " ", "{"}
+	var words func(prefix string, left int)
+	words = func(prefix string, left int) {
+		if prefix != "" {
+			quiet(prefix, nil, "delimiter-words")
+			quiet("a["+"?"+prefix, nil, "delimiter-words")
+		}
+		if left == 0 {
+			return
+		}
+		for _, c := range alphabet {
+			words(prefix+c, left-1)
+		}
+	}
+	words("", 4)
 	// deep nesting (bounded here; the crash at ~10^6 is exercised by the thorough tier in a child process)
 	for _, depth := range []int{100, 1000, 5000} {
 		run(strings.Repeat("(", depth)+"a"+strings.Repeat(")", depth), genDoc(), "deep")
@@ -461,4 +526,36 @@ func escapeFuzz() string {
 		return `'` + body + `'`
 	}
 	return `{"` + body + `": @}`
+}
+
+// leaves that take a special path somewhere: every spelling the number parsers accept or nearly
+// accept, non-finite floats and decimals, integer limits of every width, invalid UTF-8, foreign values
+func specialLeaves() []any {
+	l := []any{nil, true, false, "", "a", "1", "\xff\xfe", "a\x00b", "\xe2\x82", "\U0010ffff\ufffd"}
+	for _, t := range []string{"1", "-0", "0.0", "-2.5", "1e3", "5.0", "5e0", "50E-1", "", "abc", "NaN", "nan", "-NaN", "Inf", "inf", "-inf", "+Inf", "Infinity", "-Infinity", "infinity", "1e99999", "-1e99999", "1e-99999", "0e99999", "0x10", "1_000", "1__0", "_1", "1_", "+5", ".5", "5.", "1e", "--1", "9223372036854775807", "9223372036854775808", "-9223372036854775808", "-9223372036854775809", "18446744073709551615", "18446744073709551616", "9007199254740993", "3.0", "1e400", "1e6144", "9e6144", "1e-6176", "1e-6177", "9999999999999999999999999999999999", "99999999999999999999999999999999995", "0.1000000000000000000000000000000000000001", "007", "-01", "1.", " 1", "1 "} {
+		l = append(l, json.Number(t))
+	}
+	for _, f := range []float64{0, 1.5, -2, 3, math.NaN(), math.Inf(1), math.Inf(-1), math.Copysign(0, -1), 1e308, -1e308, 5e-324, 9.223372036854775807e18, -9.3e18, 1.8446744073709552e19, 9007199254740992, 0.1} {
+		l = append(l, f)
+	}
+	for _, f := range []float32{0, 2.5, float32(math.NaN()), float32(math.Inf(1)), float32(math.Inf(-1)), 16777216, -1, 3.4e38} {
+		l = append(l, f)
+	}
+	l = append(l, int(0), int(math.MaxInt64), int(math.MinInt64), int8(127), int8(-128), int16(32767), int16(-32768), int32(math.MaxInt32), int32(math.MinInt32), int64(math.MaxInt64), int64(math.MinInt64), int64(1)<<53+1,
+		uint(0), uint(math.MaxUint64), uint8(255), uint16(65535), uint32(math.MaxUint32), uint64(math.MaxUint64), uint64(math.MaxInt64)+1, uint64(1)<<53+1)
+	l = append(l, decimal128.NaN(), decimal128.Inf(1), decimal128.Inf(-1), decimal128.New(25, -1), decimal128.New(0, 0), decimal128.New(-3, 0), decimal128.New(1, 40), decimal128.New(1, 6144), decimal128.New(1, -6176), decimal128.New(-0, 0))
+	var p *int
+	l = append(l, foreign{1}, &foreign{2}, []string{"not", "any"}, map[string]int{"x": 1}, []int{1, 2}, struct{}{}, p, []any(nil), map[string]any(nil), func() {}, make(chan int), []any{}, map[string]any{})
+	return l
+}
+
+// exact sums over addends thousands of decimal orders apart have coefficients of thousands of digits,
+// which the model evaluates inside Coq at a minute apiece; those calls are only checked for panics
+var hugeExponent = regexp.MustCompile(`[eE][-+]?[0-9]{4,}`)
+
+func heavyForModel(expr string, doc any) bool {
+	if !(strings.Contains(expr, "sum(") || strings.Contains(expr, "avg(")) {
+		return false
+	}
+	return hugeExponent.MatchString(fmt.Sprintf("%v %s", doc, expr))
 }
